@@ -3,7 +3,9 @@
 (* Level A trace specification of operator resolution (C19).               *)
 (*                                                                         *)
 (* One trace item = one overload family + one argument tuple               *)
-(*   prog.cands  <<[l, ps, o]...>>   prog.args  <<type...>>                *)
+(*   prog.cands  <<[l, ps, o, v]...>>   prog.args  <<type...>>             *)
+(*   (v = variadic: the last pattern of ps is the tail pattern; the        *)
+(*   argument tuple may then be longer than ps)                            *)
 (* and what the driver (hgv_resolve) recorded on the compiled tree:        *)
 (*   solo  the effective rank the tree reports for every candidate when it *)
 (*         is registered alone (rk: label -> rank)                         *)
@@ -23,8 +25,15 @@
 (* the ranks THE TREE reported (in-family where the event lists the        *)
 (* candidate, else its solo rank), and all res events of an item must      *)
 (* agree (order independence).  A candidate whose parameters match the     *)
-(* arguments must not be listed as rejected (RejFail).  The rank formula   *)
-(* is not asserted here.                                                   *)
+(* arguments must not be listed as rejected (RejFail; for a variadic       *)
+(* candidate C19.matching_variadic_candidate_rejected).  A selected        *)
+(* variadic candidate must accept every tail argument under an extension   *)
+(* of the fixed parameters' bindings, and its reported bindings are those  *)
+(* of the fixed parameters alone                                           *)
+(* (C19.tail_argument_bound_a_variable_for_other_positions); the reported  *)
+(* output must be the substitution of the reported bindings, size          *)
+(* variables included (C19.output_size_is_not_explained_by_any_binding).   *)
+(* The rank formula is not asserted here.                                  *)
 (***************************************************************************)
 EXTENDS Resolution, Json, IOUtils
 
